@@ -63,8 +63,60 @@ def response_parts(chunked):
     return p
 
 
+def semantic_head(cls):
+    now = time.time()
+    D = peers.http_date
+    base = [('Content-Length', '5')]
+    far = D(now + 86400 * 3650)
+    H = {'age_max': [('Date', D(now)), ('Age', '2147483647'), ('Cache-Control', 'max-age=4000000000')],
+         'age_over': [('Date', D(now)), ('Age', '99999999999999999999'), ('Cache-Control', 'max-age=600')],
+         'age_neg': [('Date', D(now)), ('Age', '-5'), ('Cache-Control', 'max-age=600')],
+         'age_max_nodate': [('Age', '2147483647'), ('Expires', far)],
+         'date_future': [('Date', far), ('Cache-Control', 'max-age=600')],
+         'date_1970': [('Date', 'Thu, 01 Jan 1970 00:00:00 GMT'), ('Cache-Control', 'max-age=600'), ('Last-Modified', 'Thu, 01 Jan 1970 00:00:00 GMT')],
+         'date_garbage': [('Date', 'Someday, 99 Foo 99999 99:99:99 GMT'), ('Expires', far)],
+         'expires_nodate': [('Expires', far)],
+         'expires_garbage': [('Date', D(now)), ('Expires', '-1'), ('Last-Modified', D(now - 864000))],
+         'lm_future': [('Date', D(now)), ('Last-Modified', far)],
+         'maxage_over': [('Date', D(now)), ('Cache-Control', 'max-age=99999999999999999999, s-maxage=4294967296')],
+         'smaxage_neg': [('Date', D(now)), ('Cache-Control', 's-maxage=-1, max-age=-2147483648')],
+         'cl_zero_body': [('Date', D(now)), ('Cache-Control', 'max-age=600')],
+         'vary_long': [('Date', D(now)), ('Cache-Control', 'max-age=600'), ('Vary', ', '.join('X-H%d' % i for i in range(400)))],
+         'etag_long': [('Date', D(now)), ('Cache-Control', 'max-age=0'), ('ETag', '"' + 'e' * 9000 + '"')],
+         'many_fields': [('Date', D(now)), ('Cache-Control', 'max-age=600')] + [('X-N%d' % i, 'v') for i in range(900)],
+         'status_999': [('Date', D(now)), ('Cache-Control', 'max-age=600')],
+         'status_100_only': []}[cls]
+    status = {'status_999': 999}.get(cls, 200)
+    if cls == 'cl_zero_body':
+        base = [('Content-Length', '0')]
+    return status, base + H
+
+
 async def one(ctx, sq, n, par, rnd, good_port):
     rec = peers.Rec()
+    if par['stage'] == 'semantic':
+        async def sresponder(q, oc):
+            st, hs = semantic_head(par['cls'])
+            if par['cls'] == 'status_100_only':
+                await oc.send(b'HTTP/1.1 100 Continue\r\n\r\n' * 3)
+                await asyncio.sleep(0.05)
+                oc.close()
+                return True
+            await oc.send(peers.response_head(st, 'X', hs) + (b'hello' if ('Content-Length', '5') in hs else b''))
+            return False
+        o = await peers.Origin(rec, sresponder).start()
+        outcome = 'none'
+        try:
+            url = 'http://127.0.0.1:%d/c09s/%d' % (o.port, n)
+            r1 = await peers.simple_get(rec, sq.port, url, vid='%d.1' % n, timeout=4.0)
+            await asyncio.sleep(1.1)                    # a second later (real time: Age arithmetic uses whole seconds)
+            r2 = await peers.simple_get(rec, sq.port, url, vid='%d.2' % n, timeout=4.0)
+            r3 = await peers.simple_get(rec, sq.port, url, headers=[('If-Modified-Since', peers.http_date(time.time() - 5))], vid='%d.3' % n, timeout=4.0)
+            outcome = 'response' if (r2.status is not None or r1.status is not None) else 'close'
+        except (ConnectionError, OSError):
+            outcome = 'close'
+        await o.stop()
+        return {'e': 'Adversarial', 'outcome': outcome, 'par': par}
     chunked = par['stage'] in ('chunksize', 'chunkext', 'chunkeol', 'lastchunk', 'trailer', 'tevalue') or rnd.random() < 0.3
     outcome = 'none'
     if par['side'] == 'client':
